@@ -13,11 +13,80 @@ def run(rep, tier, seed):
         rep.violation({'kind': 'proof-broken', 'log': pr['log'][-3000:], 'forbidden': pr['forbidden']}, suffix='no-failing-input-found')
     nh, nops = (32, 110) if tier == 'quick' else (1200, 300)
     res = k2check.run_k2(rep, 'C19', tier, seed, 'c19', nh, nops, extra_histories=[F1])
+    damaged_log_segment(rep, tier, seed)
     rep.cov['repairs'] = sum(r['res'].stats.get('repair', 0) for r in res)
     rep.cov['rule'] = ('histories as for C01 plus: close, lose the metadata (delete MANIFEST+CURRENT / truncate MANIFEST / dangling CURRENT / '
                        'corrupt MANIFEST), ldb_repair, ldb_open, then read every key, scan, and continue with writes and compactions; the model '
                        're-registers every surviving table at level 0 and re-bases the specification on the surviving entries; '
-                       'distinct_nontrivial = histories with >= 1 flush and >= 1 non-trivial compaction')
+                       'plus: repair of directories whose live log holds one record that does not parse as a batch (every other record must be salvaged); distinct_nontrivial = histories with >= 1 flush and >= 1 non-trivial compaction')
+
+def damaged_log_segment(rep, tier, seed):
+    """Repair must salvage every intact record of a live write-ahead log even when one record in its middle does not
+    parse as a write batch: write n single-record batches (no flush), close, overwrite the first operation tag of one
+    middle record (repair reads logs without checksum verification, so the record is delivered and fails to apply),
+    lose the metadata, ldb_repair + ldb_open, and compare the contents with the application of all OTHER batches."""
+    import os, shutil, subprocess, k2lib, k3lib
+    out = vlib.scratch_dir(); k2 = vlib.build_k2(out, 'nothread')
+    rng = vlib.Rng(seed ^ 0xD0C19)
+    ncase = 12 if tier == 'quick' else 300
+    for c in range(ncase):
+        db = os.path.join(out, 'dl%d' % c)
+        keys = [b'k%02d' % i for i in range(rng.range(3, 9))]
+        n = rng.range(5, 14)
+        batches = []
+        ops = ['open']
+        for i in range(n):
+            ups = []
+            for _ in range(rng.range(1, 3)):
+                k = rng.choice(keys)
+                ups.append((k, None) if rng.chance(1, 6) else (k, '@%d:%d' % (rng.range(1, 60), rng.below(256))))
+            ups.append((b'm%03d' % i, '@%d:%d' % (rng.range(1, 20), i)))
+            ops.append('batch %s 0' % ','.join(('p%s:%s' % (k.hex(), v)) if v is not None else ('d%s' % k.hex()) for k, v in ups))
+            batches.append(ups)
+        opts = {'write_buffer': 4194304, 'reuse_logs': 0}
+        rc, txt, err = k2lib.run_c(k2, db, opts, ops + ['close'])
+        logs = sorted(f for f in os.listdir(db) if f.endswith('.log'))
+        if rc != 0 or not logs:
+            rep.violation({'kind': 'harness-crash', 'detail': err[-500:]}); continue
+        path = os.path.join(db, logs[-1]); data = bytearray(open(path, 'rb').read())
+        # walk the physical records (all FULL: the log is far below one 32 KiB block)
+        offs = []; pos = 0
+        while pos + 7 <= len(data):
+            ln = data[pos + 4] | (data[pos + 5] << 8); ty = data[pos + 6]
+            if ty != 1 or pos + 7 + ln > len(data): break
+            offs.append(pos + 7); pos += 7 + ln
+        if len(offs) != n:
+            continue
+        j = rng.range(1, n - 2) if n >= 3 else 0
+        how = rng.choice(['tag', 'tag', 'count'])
+        if how == 'tag': data[offs[j] + 12] = 0x07                      # no such operation
+        else: data[offs[j] + 8] = (data[offs[j] + 8] + 1) & 255           # count does not match the operations
+        open(path, 'wb').write(bytes(data))
+        rc, txt, err = k2lib.run_c(k2, db, opts, ['repair 0', 'scan -'] + ['get %s -' % k.hex() for k in keys], keep=True)
+        calls = k2lib.parse_trace(txt)
+        rep.evaluated(1); rep.nontrivial(('damaged-log', n, j, how))
+        shutil.rmtree(db, ignore_errors=True); shutil.rmtree(db + '.lost', ignore_errors=True)
+        if rc != 0 or len(calls) < 2 or calls[0]['ret'] is None or calls[0]['ret'].split(' ')[0] != '0':
+            rep.violation({'kind': 'repair-failed-on-damaged-log', 'detail': (calls[0]['ret'] if calls else err[-300:]), 'history': ops, 'damaged_record': j, 'how': how}); continue
+        content, st = k3lib.scan_to_map(calls[1]['ret'])
+        # intact batches must all be there; of the damaged one, any prefix of its operations may have been applied ('count' damage
+        # applies all of them and then reports the mismatch), so its keys are compared against both possibilities
+        def apply(skip_from):
+            m = {}
+            for i, ups in enumerate(batches):
+                for t, (k, v) in enumerate(ups):
+                    if i == j and t >= skip_from: continue
+                    if v is None: m.pop(k, None)
+                    else: m[k] = v
+            return m
+        allowed = [apply(t) for t in range(len(batches[j]) + 1)]
+        if st != '0' or content not in allowed:
+            want = allowed[0]
+            diff = sorted(k.hex() for k in set(want) | set(content) if want.get(k) != content.get(k))[:8]
+            rep.violation({'kind': 'repair-lost-intact-log-records', 'history': ops, 'options': opts, 'damaged_record': j, 'damage': how,
+                           'detail': 'after repair the contents are not the application of the intact batches (keys %s differ from dropping batch %d entirely)' % (diff, j),
+                           'implementation': {k.hex(): v for k, v in sorted(content.items())}})
+    rep.cov['damaged_log_repairs'] = ncase
 
 def replay(rep, path):
     return k2check.replay_k2(rep, path)
